@@ -154,6 +154,11 @@ def gen_fit(rng, tier):
     n = len(case["nodes"])
     N = rng.randint(n + 4, 30)
     case["data"] = [[rs(Fraction(rng.randint(-20, 20), 2)) for _ in range(n)] for _ in range(N)]
+    if rng.random() < .25:
+        # data far from the origin relative to its spread (sensor readings around 1e6 +- 10): least squares is still well posed
+        off = [Fraction(rng.choice([10 ** 5, 10 ** 6, -10 ** 6, 3 * 10 ** 5])) for _ in range(n)]
+        case["data"] = [[rs(Fraction(x) + off[v]) for v, x in enumerate(row)] for row in case["data"]]
+        case["far"] = True
     case["index"] = rng.choice(["range", "range", "shuffled", "offset", "str"])       # least squares does not depend on row labels
     return case
 
